@@ -265,6 +265,13 @@ def h : Handler := fun op j =>
       out showPyList (polyfit (fun _ _ _ => p) (← getPyList j "x") (← getPyList j "y") (← getNat j "deg"))
   | "backend" => do
       out (fun (l : List Q) => "[" ++ ",".intercalate (l.map sr) ++ "]") (backendCall id (← getPyList j "args"))
+  | "backend_v" => do
+      let args ← (← getArr j "args").mapM asVal
+      out (fun (l : List (Res Q)) => "[" ++ ",".intercalate (l.map showRes) ++ "]") (backendCallV id args)
+  | "named_unit" => do
+      match (namedUnit? (← getStr j "name") : Option (ChemModel.Units.Unit Q)) with
+      | some u => pure (showUnit u)
+      | none => pure "AttributeError"
   | "own_unit" => do
       match (ownUnit? (← getStr j "name") : Option (ChemModel.Units.Unit Q)) with
       | some u => pure (showUnit u)
